@@ -167,6 +167,45 @@ func runHist(res *vh.Result, prop string) {
 			sig = vh.Sig(abstract(tr))
 		}
 		res.Eval(sig)
+		// the same history again with data-plane faults: removals the data plane refuses (the rule stays
+		// installed; C04 C05 C11 C12) and, for C04/C05, failing creates/updates/queries as in C01
+		rems := tr.RemoveCalls()
+		fcalls := tr.FaultableCalls()
+		nplans := vh.Tiered(2, 3)
+		if prop == "C08" {
+			nplans = 0
+		}
+		for k := 0; k < nplans; k++ {
+			plan := map[int]string{}
+			if len(rems) > 0 {
+				for j := 0; j < 1+rng.Intn(2); j++ {
+					plan[vh.RemBase+rng.Intn(len(rems))] = "na"
+				}
+			}
+			if (prop == "C04" || prop == "C05") && len(fcalls) > 0 && k > 0 {
+				plan[rng.Intn(len(fcalls))] = []string{"na", "ap"}[rng.Intn(2)]
+			}
+			if len(plan) == 0 {
+				break
+			}
+			ft := rn.Run(h, plan)
+			if faultCrash(res, i, prop, h, plan, ft) {
+				continue
+			}
+			fa := vh.Analyze(ft)
+			reportFindings(res, i, prop, h, plan, fa, ft)
+			res.Eval(vh.Sig(abstract(ft), vh.J(plan)))
+			res.Count("fault_plans", 1)
+			refused := 0
+			for _, st := range ft.Steps {
+				for _, c := range st.Calls {
+					if c.Op == "Remove" && c.Fault == "na" {
+						refused++
+					}
+				}
+			}
+			res.Count("refused_removals", int64(refused))
+		}
 		calls, dgrams := 0, 0
 		for _, st := range tr.Steps {
 			calls += len(st.Calls)
